@@ -16,7 +16,6 @@
 #endif
 /* SHAPESTR: one class letter per input byte (see shape_ok); absent = L free bytes */
 
-#define SCEN_EXTRA unsigned char jk[40]; unsigned char jbuf[24];
 
 static struct {
         int owed;              /* non-blank lines consumed whose result code is not yet completely out */
@@ -71,22 +70,7 @@ static void mon_unit(int kind)
 static void junk_idle(void)
 {
 #if JUNK
-        /* IDLE as reset_state leaves it: state, cr_flag, hold_state_flag, cmd, cmd_type are defined;
-         * everything else is scratch left over from any earlier line */
-        unsigned i;
-        W.at.index = vf_u32(&S.jk[0]);
-        W.at.partial_cntr = vf_u32(&S.jk[4]);
-        W.at.length = vf_u32(&S.jk[8]);
-        W.at.position = vf_u32(&S.jk[12]);
-        W.at.write_size = vf_u32(&S.jk[16]);
-        W.at.current_char = (char)S.jk[20];
-        W.at.hold_exit_status = (int)(signed char)S.jk[21];
-        W.at.write_state = (int)S.jk[22];
-        W.at.write_state_after = (cat_state)(signed char)S.jk[23];
-        W.at.var = (S.jk[24] & 1) ? &W.var[S.jk[24] >> 7] : NULL;
-        W.at.write_buf = (S.jk[25] & 1) ? (const char *)G_buf : NULL;
-        for (i = 0; i < 24 && i < CAPB_MAX; i++)
-                G_buf[i] = S.jbuf[i];
+        world_junk_idle();
 #endif
 }
 
@@ -141,8 +125,6 @@ static void scen_sample(void)
 {
         unsigned p = 0, i;
         world_sample();
-        rnd_bytes(S.jk, sizeof(S.jk));
-        rnd_bytes(S.jbuf, sizeof(S.jbuf));
 #ifndef SHAPESTR
         while (p < L) {
                 if (rnd(5) == 0) { S.in[p++] = (unsigned char)rnd(256); continue; }
